@@ -38,9 +38,9 @@ static std::string expect(std::string const& pat, int64_t ns, bool gmt)
 int main()
 {
   std::vector<std::string> pats = {"%H:%M:%S", "%Y-%m-%d %H:%M:%S", "%I:%M:%S %p", "%T", "%r", "%R", "%D %T", "%s", "%k|%l", "%H:%M:%S.%Qms", "%Qus %H", "%M:%S.%Qns %p",
-                                   "%a %d %b %Y %I %p", "%j %H%M%S %y", "%-H:%M:%S", "%h %e %-I%p", "%c", "%F %T%z", "100%%S %H", "%Y%m%dT%H%M%S.%Qus%Z"};
-  std::vector<std::string> toks = {"%H", "%M", "%S", "%I", "%p", "%-H", "%_M", "%5S", "%OS", "%EX", "%c", "%%", "%Qms", "x", "%d", "%k", "%l", "%T"};
-  for_all_strings(std::string("abcdefghijklmnopqr").substr(0, toks.size()), TOK, [&](std::string const& pick) {
+                                   "%a %d %b %Y %I %p", "%j %H%M%S %y", "%-H:%M:%S", "%h %e %-I%p", "%c", "%F %T%z", "100%%S %H", "%Y%m%dT%H%M%S.%Qus%Z", "%H:%M:%S (fmt %%T)", "%%R=%H:%M", "[%%r] %I:%M:%S %p"};
+  std::vector<std::string> toks = {"%H", "%M", "%S", "%I", "%p", "%-H", "%_M", "%5S", "%OS", "%EX", "%c", "%%", "%Qms", "x", "%d", "%k", "%l", "%T", "T", "r"};   // "T" / "r": literal letters, so that an escaped %%T / %%r (literal text "%T") is a pattern - seed C13-F3
+  for_all_strings(std::string("abcdefghijklmnopqrstuvwx").substr(0, toks.size()), TOK, [&](std::string const& pick) {
     if (pick.empty()) return;
     std::string p; int q = 0; for (char c : pick) { p += toks[c - 'a']; if (toks[c - 'a'] == "%Qms") ++q; }
     if (q <= 1) pats.push_back(p);        // two fractional specifiers are rejected by the constructor (unit TF.ctor)
@@ -78,7 +78,7 @@ int main()
       });
     }
   }
-  printf("SPACE (20 fixed patterns + every pattern of <= %d tokens from 18) x {GMT, local} x 5 process time zones x every sequence (any order) of <= %d instants from a 24-point grid (UTC midnight/noon, local midnights, two DST switches), one formatter object per sequence\n", TOK, LEN);
+  printf("SPACE (23 fixed patterns + every pattern of <= %d tokens from 20) x {GMT, local} x 5 process time zones x every sequence (any order) of <= %d instants from a 24-point grid (UTC midnight/noon, local midnights, two DST switches), one formatter object per sequence\n", TOK, LEN);
   printf("DISTINCT %ld\n", n);
   printf("SAMPLE TZ=Asia/Kolkata local [%%-H:%%M:%%S] instants=1686594599,1686594607\n");
   report(o1); report(o2);
